@@ -572,7 +572,7 @@ class CryptoEngine:
                                 crypto=self,
                                 keyslot=keyslot,
                                 counter=ctr,
-                                closefd=True)
+                                closefd=closefd)
         else:
             return CTRFileIO(file=fh,
                              crypto=self,
